@@ -28,7 +28,7 @@ THEOREMS = [
 LEAN_MODULES = ["PorepyVerif.C09.Props"]
 AUDIT = "PorepyVerif/C09/Audit.lean"
 DRIVER = "PorepyVerif/C09/Driver.lean"
-N = {"quick": 800, "thorough": 30000}
+N = {"quick": 800, "thorough": 25000}
 RULE = ("streams: A (55%) time loop on dyadic parameters (schedule of 2-6 points with arbitrary dyadic start, gaps 1/16..4, dt bounds/"
         "factors with small power-of-two denominators, tolerances default/zero/dyadic/large/negative/rtol>1, outcome tapes of 5-40 entries with failure "
         "rates 0-0.8 and iteration counts around the optimal-range end points; dt_init fits the first interval in 90%, divides the gaps "
